@@ -23,7 +23,7 @@ import (
 	"github.com/flamego/flamego/verifharness/internal/rt"
 )
 
-const rule = "case = a history of 3..25 operations over one Flame and, per method, one mirror route.Tree populated identically: register(static | optional-static | optional twin of a registered route | dynamic route that can shadow a static one; through Route or, for comma lists in any case, Routes), headers(route, pairs) mirrored with SetHeaderMatcher, request(method, path, headers) with paths = route instances, the route text itself used as a path, extra leading slashes, trailing slashes, optionally an over-escaped URL.RawPath. " +
+const rule = "case = a history of 3..25 operations over one Flame and, per method, one mirror route.Tree populated identically: register(static | optional-static | dynamic route over the same literals | a registered route with one segment replaced by a bind, which shadows it; through Route or, for comma lists in any case, Routes), headers(route, pairs) mirrored with SetHeaderMatcher, request(method, path, headers) with paths = route instances, the route text itself used as a path, extra leading slashes, trailing slashes, optionally an over-escaped URL.RawPath. " +
 	"Oracle (differential, after every request): handler that ran / not-found and parameters from Flame.ServeHTTP == Tree.Match on the mirror; additionally == the reference matcher. " +
 	"non-trivial = a history with a request answered by a fully static, unconstrained route (the shortcut's domain) after >=2 registrations, or a request whose path contains route-syntax characters ('?', '{'), or a request that follows a headers operation on a static route; distinct by case text"
 
@@ -330,21 +330,23 @@ func genCase(t *rapid.T) Case {
 				}
 			}
 			m := methods[rapid.IntRange(0, len(methods)-1).Draw(t, "rm")]
-			if len(regs) > 0 && rapid.IntRange(0, 5).Draw(t, "twin") == 0 {
-				h := regs[rapid.IntRange(0, len(regs)-1).Draw(t, "twinof")]
+			if len(regs) > 0 && rapid.IntRange(0, 3).Draw(t, "shadow") == 0 {
+				// a dynamic route that shadows a registered one: same text with one
+				// segment replaced by a bind (it takes the requests the static route
+				// is not allowed to answer); registered for the same method
+				h := regs[rapid.IntRange(0, len(regs)-1).Draw(t, "shadowof")]
 				td := rt.Deriv(h.r)
-				n := len(td.Segs)
-				if len(td.Segs[n-1].Elems) > 0 {
-					cp := append([]model.Seg(nil), td.Segs...)
-					cp[n-1] = model.Seg{Elems: cp[n-1].Elems, Optional: !cp[n-1].Optional}
-					d, m = model.Route{Segs: cp}, h.m
-				}
+				cp := append([]model.Seg(nil), td.Segs...)
+				j := rapid.IntRange(0, len(cp)-1).Draw(t, "shadowseg")
+				used := map[string]bool{}
+				opt := cp[j].Optional
+				cp[j] = gen.SegOfKind(t, []model.Kind{model.KPlaceholder, model.KRegex, model.KMatchAll}[rapid.IntRange(0, 2).Draw(t, "sk")], used, false)
+				cp[j].Optional = opt
+				d, m = model.Route{Segs: cp}, h.m
 			}
 			ok := true
 			for _, mm := range model.ExpandMethods(m) {
-				// "/a/?b" next to "/a/b" is not classified by C08 (EITHER) but the
-				// router accepts it, so it belongs to the histories C10 speaks about
-				if v, why := g.Check(mm, d); v != model.MustAccept && why != "optional-twin" {
+				if v, _ := g.Check(mm, d); v != model.MustAccept {
 					ok = false
 				}
 			}
